@@ -357,8 +357,14 @@ fn long_run(out: &mut Partial) {
             }
             false
         });
-        for (key, d) in stats_problems(&w.snapshot(a), &mut scale) {
+        let snap = w.snapshot(a);
+        for (key, d) in stats_problems(&snap, &mut scale) {
             problems.push((key, format!("minute {}: {d}", k * 5)));
+        }
+        // three seconds after every maintenance boundary the refresh lookup (answered within
+        // milliseconds here) is over: no lookup pending, nothing unexpired in flight
+        if !snap.core.iterative_queries.is_empty() || snap.socket.inflight_unexpired != 0 {
+            problems.push(("never-quiet".into(), format!("minute {}: {} lookups pending and {} unexpired requests in flight three seconds after the maintenance boundary, with every peer answering within 10 ms", k * 5, snap.core.iterative_queries.len(), snap.socket.inflight_unexpired)));
         }
         if !problems.is_empty() {
             break;
